@@ -724,11 +724,25 @@ def g5_o5m(fb, R):
         # inside resize(...).  `++c == N` / `++c; if (c == N)` keep c in [0, N-1]; `c++ == N` (old value compared) or
         # `++c > N` let it reach N, and so on.
         counter = None
+        index_locals = set()
         for a2 in fn.nodes[dst[0]].get('args', []):
             if a2 is not None:
                 for r in local_roots(fn, a2):
                     if r[0] == 'field':
                         counter = r
+                    elif r[0] == 'var':
+                        index_locals.add(r)
+        if counter is None:
+            # the slot is addressed through a local working copy of the member (`entry = current_entry; ... m_table[entry * size]`)
+            for r in index_locals:
+                for dn in definitions(fn, r[1]):
+                    dnn = fn.nodes[dn]
+                    if dnn.get('k') == 'decl':
+                        for v in dnn['vars']:
+                            if v['d'] == r[1] and isinstance(v.get('init'), int):
+                                fr = [x for x in local_roots(fn, v['init']) if x[0] == 'field']
+                                if len(fr) == 1 and len(local_roots(fn, v['init'])) == 1:
+                                    counter = fr[0]
         # the counter itself, or a local working copy of it: initialised from the member (counter + k), updated, and
         # stored back to the member (`next = counter + 1; if (next == N) next = 0; counter = next;`)
         copies = set()
